@@ -3,7 +3,7 @@ from __future__ import annotations
 
 from typing import Dict, Iterable, List, Optional, Tuple
 
-from .terms import NEG, FLIP, Term, const, is_const, subterms, unview, show
+from .terms import NEG, FLIP, Term, const, is_const, mentions, subterms, unview, show
 
 
 def atoms(pc) -> List[Term]:
@@ -423,3 +423,52 @@ def pc_implies(pc, pred) -> bool:
         if alts and all(any(pred(a) for a in alt) for alt in alts):
             return True
     return False
+
+
+def cut_normalise(t: Term, data: Term, facts) -> Term:
+    """Read slices of the uncut buffer `data` whose bounds are written relative to the declared length L as slices of the cut
+    packet P = data[:L]:   data[a : L - c] -> P[a:-c]   data[L - c : L] -> P[-c:]   data[: max(L - c, 0)] -> P[:-c]
+    (`max(L - c, 0)` is exactly how Python clamps the negative bound -c).  Only applied when the facts say len(data) >= L, which
+    makes P exactly L bytes long; L is any int.from_bytes(data[...]) field read."""
+    from .affine import lin, Lin
+    Ls = [x for x in subterms(t) if call_is(x, "int.from_bytes") and x[2] and mentions(x[2][0], data)]
+    L = None
+    for cand in Ls:
+        ok = any(f[0] == "cmp" and ((f[1] == ">=" and call_is(strip(f[2]), "len") and strip(strip(f[2])[2][0]) == data and strip(f[3]) == cand) or
+                                    (f[1] == "<=" and call_is(strip(f[3]), "len") and strip(strip(f[3])[2][0]) == data and strip(f[2]) == cand)) for f in facts)
+        if ok:
+            L = cand
+    if L is None:
+        return t
+    lL = lin(L)
+
+    def conv(b, is_hi):
+        if b is None:
+            return None, True
+        bs = strip(b)
+        if is_const(bs) and isinstance(bs[1], int):
+            return (b, True) if bs[1] >= 0 else (b, False)
+        if call_is(bs, "max") and len(bs[2]) == 2 and any(strip(z) == ("const", 0) for z in bs[2]):
+            bs = strip([z for z in bs[2] if strip(z) != ("const", 0)][0])
+        d = lin(bs) - lL
+        if d.is_const() and d.c.denominator == 1:
+            c = int(d.c)
+            if c == 0:
+                return (None, True) if is_hi else (b, False)
+            if c < 0:
+                return ("const", c), True
+        return b, False
+
+    def rw(x):
+        if not isinstance(x, tuple):
+            return x
+        x = tuple(rw(y) for y in x)
+        if x and x[0] == "slice" and strip(x[1]) == data and x[4] is None and (x[2] is not None or x[3] is not None):
+            if any(mentions(y, L) for y in (x[2], x[3]) if y is not None):
+                lo, ok1 = conv(x[2], False)
+                hi, ok2 = conv(x[3], True)
+                if ok1 and ok2:
+                    cut = ("slice", x[1], None, L, None)
+                    return cut if (lo is None and hi is None) else ("slice", cut, lo, hi, None)
+        return x
+    return rw(t)
